@@ -6,7 +6,7 @@ namespace Bip39V.Model
 open Bip39V
 
 /-- the words of table `t` as item lists -/
-def words (t : Nat) : List Str := (Gen.table t).toList.map unpack
+def words (t : Nat) : List Str := Gen.wordsOf t
 
 def assoc (l : List (Int × Nat)) (k : Int) : Option Nat :=
   match l with
